@@ -778,6 +778,14 @@ func (e *Engine) applyAts(s *State, fr *Frame, anchor, when string, cc *ssa.Call
 			if s.dead {
 				return
 			}
+			if at.When == "after" {
+				// the call's result was replaced by an arbitrary value: later "after" clauses see that one
+				if c, ok := site.(*ssa.Call); ok {
+					if nv, ok := fr.regs[c]; ok {
+						rv = nv
+					}
+				}
+			}
 		case "set":
 			env := e.mkEnv(s, fr, vars, vtypes)
 			tv, err := e.eval(env, at.Clause.Expr)
